@@ -37,32 +37,34 @@ Theorem C19_shorthands_faithful :
 Proof. intros c Hwf _. exact (accepts_holds c Hwf). Qed.
 Print Assumptions C19_shorthands_faithful.
 
-(* model level: through a controller whose entity field is e, every shorthand
-   IS the World call for e (same result, same callbacks, same successor state) *)
+(* model level: through a controller whose fields are (e, world j), every
+   shorthand IS the World call on world j for e (same result, same callbacks,
+   same successor state of both worlds) *)
 Theorem C19_shorthand_is_world_call :
-  forall H K P st k e s pick,
-    alookup k (cent st) = Some e -> set_guard H K P s = true ->
-    via_controller H K P st k s pick = direct_call H K P st e s pick.
+  forall H K P d k e j s pick,
+    alookup k (cent (d1 d)) = Some (e, norm j) -> set_guard H K P s = true ->
+    via_controller H K P d k s pick = direct_call H K P d j e s pick.
 Proof. exact via_controller_direct. Qed.
 Print Assumptions C19_shorthand_is_world_call.
 
-(* one step on twin worlds in equal states: equal successor states, equal
-   observations, and the owner invariant (entity field = entity of the
-   attachment for every delivered controller) is kept *)
+(* one step on twin sides in equal states: equal successor states, equal
+   observations, and the history summary (entity and world of every
+   controller's latest delivered on_add, waiting notifications per world) is
+   exactly what the model state holds *)
 Theorem C19_twin_step :
-  forall c st o op ob stA' stB',
-    OwnInv (evp_of st) o ->
-    cop_wf (cc_hier c) (cc_comps c) (cc_procs c) o op = true ->
-    cstep c st st op ob = Some (stA', stB') ->
-    stA' = stB' /\ OwnInv (evp_of stA') (ospec_step (cc_comps c) o op) /\
-    same_effect ob = true /\ knows (ospec_step (cc_comps c) o op) (a_snap ob) = true.
+  forall c d op ob dA' dB',
+    Good d ->
+    cop_wf (cc_hier c) (cc_comps c) (cc_procs c) (track_of d) op = true ->
+    cstep c d d op ob = Some (dA', dB') ->
+    dA' = dB' /\ Good dA' /\ track_of dA' = track_step (cc_comps c) (track_of d) op /\
+    same_effect ob = true /\ knows (track_step (cc_comps c) (track_of d) op) (a_snap ob) = true.
 Proof. exact cstep_sim. Qed.
 Print Assumptions C19_twin_step.
 
-(* reading of [knows]: a delivered controller's observed entity is its owner *)
+(* reading of [knows]: a controller's observed entity and world are those of
+   its latest delivered on_add *)
 Theorem C19_knows_meaning :
-  forall o s k, knows o s = true -> memz k (dlv o) = true ->
-    forall x, In (k, x) (sn_cent s) -> x = alookup k (own o).
+  forall t s k x, knows t s = true -> In (k, x) (sn_cent s) -> x = alookup k (t_own t).
 Proof. exact knows_meaning. Qed.
 Print Assumptions C19_knows_meaning.
 
@@ -84,7 +86,8 @@ Definition ex_hier : hier := [(0, [0]); (1, [0; 1]); (49, [49]); (50, [49; 50]);
 Definition ex_comps : comps :=
   [(0, Build_cinst 50 true); (1, Build_cinst 0 false); (2, Build_cinst 1 false)].
 Definition sn (ents : list Z) (row1 : list Z) (ex1 : bool) (ps : list Z) (k0 : option Z) : snap :=
-  Build_snap ents [row1] [ex1] ps (map (fun _ => 0) ps) [(0, k0)] true.
+  Build_snap ents [row1] [ex1] ps (map (fun _ => 0) ps)
+             [(0, option_map (fun e => (e, 1)) k0)] true.
 Definition both (r : res) (l : list ev) (s : snap) (pick : option Z) : cobs :=
   Build_cobs r l s r l s pick.
 Definition ex_ctrl (tr : ctrace) : C19_case :=
@@ -92,15 +95,15 @@ Definition ex_ctrl (tr : ctrace) : C19_case :=
               cc_procs := [(0, Build_inst 100 false false false)]; cc_pool := [1];
               cc_trace := tr |}.
 Definition ex_prefix : ctrace :=
-  [ (ODirect (WCreate 1 [0; 1]), both (ROpt (Some 1)) [] (sn [1] [0; 1] true [] (Some 1)) None);
-    (OShort 0 1 (SGet 0), both (ROpt (Some 1)) [] (sn [1] [0; 1] true [] (Some 1)) (Some 1));
-    (OShort 0 1 (SRefSet 0 2), both RNone [] (sn [1] [0; 1; 2] true [] (Some 1)) None);
-    (OShort 0 1 (SPRefSet 100 0 0), both RNone [] (sn [1] [0; 1; 2] true [0] (Some 1)) None) ].
+  [ (ODirect 1 (WCreate 1 [0; 1]), both (ROpt (Some 1)) [] (sn [1] [0; 1] true [] (Some 1)) None);
+    (OShort 0 1 1 (SGet 0), both (ROpt (Some 1)) [] (sn [1] [0; 1] true [] (Some 1)) (Some 1));
+    (OShort 0 1 1 (SRefSet 0 2), both RNone [] (sn [1] [0; 1; 2] true [] (Some 1)) None);
+    (OShort 0 1 1 (SPRefSet 100 0 0), both RNone [] (sn [1] [0; 1; 2] true [0] (Some 1)) None) ].
 Definition ex_ok : C19_case :=
   ex_ctrl (ex_prefix ++
-    [ (OShort 0 1 SDelete, both RNone [] (sn [] [0; 1; 2] false [0] (Some 1)) None);
-      (OShort 0 1 SGetAll, both (RList [0; 1; 2]) [] (sn [] [0; 1; 2] false [0] (Some 1)) None);
-      (ODirect (WProcess 4), both RNone [ERun 0 4] (sn [] [] false [0] (Some 1)) None) ]).
+    [ (OShort 0 1 1 SDelete, both RNone [] (sn [] [0; 1; 2] false [0] (Some 1)) None);
+      (OShort 0 1 1 SGetAll, both (RList [0; 1; 2]) [] (sn [] [0; 1; 2] false [0] (Some 1)) None);
+      (ODirect 1 (WProcess 4), both RNone [ERun 0 4] (sn [] [] false [0] (Some 1)) None) ]).
 Example C19_ctrl_nonvacuous :
   wf_b ex_ok = true /\ known_b ex_ok = false /\ accepts ex_ok = true /\ holds_b ex_ok = true.
 Proof. vm_compute. auto. Qed.
@@ -109,7 +112,7 @@ Proof. vm_compute. auto. Qed.
    once, world B (delete_entity(e)) still has them until the next frame *)
 Example C19_delete_immediate_rejected :
   let c := ex_ctrl (ex_prefix ++
-    [ (OShort 0 1 SDelete,
+    [ (OShort 0 1 1 SDelete,
        Build_cobs RNone [] (sn [] [] false [0] (Some 1))
                   RNone [] (sn [] [0; 1; 2] false [0] (Some 1)) None) ]) in
   wf_b c = true /\ accepts c = false /\ holds_b c = false.
@@ -118,7 +121,7 @@ Proof. vm_compute. auto. Qed.
 (* del k.pref removing another processor type than the World call does *)
 Example C19_reference_wrong_type_rejected :
   let c := ex_ctrl (ex_prefix ++
-    [ (OShort 0 1 (SPRefDel 100),
+    [ (OShort 0 1 1 (SPRefDel 100),
        Build_cobs RNone [] (sn [1] [0; 1; 2] true [0] (Some 1))
                   RNone [] (sn [1] [0; 1; 2] true [] (Some 1)) (Some 0)) ]) in
   wf_b c = true /\ accepts c = false /\ holds_b c = false.
@@ -127,7 +130,20 @@ Proof. vm_compute. auto. Qed.
 (* a controller that does not know its entity *)
 Example C19_unknown_entity_rejected :
   let c := ex_ctrl
-    [ (ODirect (WCreate 1 [0; 1]), both (ROpt (Some 1)) [] (sn [1] [0; 1] true [] None) None) ] in
+    [ (ODirect 1 (WCreate 1 [0; 1]), both (ROpt (Some 1)) [] (sn [1] [0; 1] true [] None) None) ] in
+  wf_b c = true /\ accepts c = false /\ holds_b c = false.
+Proof. vm_compute. auto. Qed.
+
+(* the controller is attached again, in world 2: a shorthand must then act on
+   world 2 (here: world A's controller still acts on world 1, whose
+   get_components it returns) *)
+Example C19_moved_to_other_world_rejected :
+  let s1 := sn [1] [0; 1] true [] (Some 1) in
+  let s2 (w : Z) := Build_snap [1] [[0]] [true] [] [] [(0, Some (1, w))] true in
+  let c := ex_ctrl
+    [ (ODirect 1 (WCreate 1 [0; 1]), both (ROpt (Some 1)) [] s1 None);
+      (ODirect 2 (WAdd 1 0), Build_cobs RNone [] (s2 1) RNone [] (s2 2) None);
+      (OShort 0 1 2 SGetAll, Build_cobs (RList [0; 1]) [] (s2 1) (RList [0]) [] (s2 2) None) ] in
   wf_b c = true /\ accepts c = false /\ holds_b c = false.
 Proof. vm_compute. auto. Qed.
 
@@ -180,8 +196,8 @@ Proof. vm_compute. reflexivity. Qed.
 (* k.pref = p passing a priority of its own: world A runs / lists p with
    another priority attribute than add_processor(p) gives it on world B *)
 Example C19_reference_priority_rejected :
-  let sp (pr : Z) := Build_snap [1] [[0; 1; 2]] [true] [0] [pr] [(0, Some 1)] true in
+  let sp (pr : Z) := Build_snap [1] [[0; 1; 2]] [true] [0] [pr] [(0, Some (1, 1))] true in
   let c := ex_ctrl (firstn 3 ex_prefix ++
-    [ (OShort 0 1 (SPRefSet 100 0 2), Build_cobs RNone [] (sp 0) RNone [] (sp 2) None) ]) in
+    [ (OShort 0 1 1 (SPRefSet 100 0 2), Build_cobs RNone [] (sp 0) RNone [] (sp 2) None) ]) in
   wf_b c = true /\ accepts c = false /\ holds_b c = false.
 Proof. vm_compute. auto. Qed.
